@@ -182,6 +182,7 @@ def build(prop, engine, tier, seed, results, wall, truncated, nviol,
                                     if k.startswith('foreign:')},
         'distinct_interleavings': len(shapes),
         'components': COMPONENTS.get(engine, {}),
+        'slowest_run_s': round(max([r.get('wall', 0) for r in done] + [0]), 2),
         'harness_errors': len(results) - len(done),
         'truncated_by_wall_budget': truncated,
         'known_findings_hit': sorted(known_hit),
